@@ -8,6 +8,7 @@ import (
 	"go/ast"
 	"go/token"
 	"go/types"
+	"npverif/internal/facts"
 	"os"
 	"path/filepath"
 	"sort"
@@ -164,6 +165,7 @@ func Load(dir string, overlay map[string][]byte) (*Program, error) {
 		}
 	}
 	sort.Slice(p.Funcs, func(i, j int) bool { return p.Funcs[i].Key() < p.Funcs[j].Key() })
+	facts.InlineHook = p.InlineBool
 	return p, nil
 }
 
